@@ -80,6 +80,37 @@ def _read_contributes(g: FunctionInfo, n: ast.AST) -> bool:
         child = a
     return True
 
+
+def _unicode_trim_rule(prog: Program, res: Result) -> None:
+    """Printers = every __str__ in liquid2 plus the module-level helpers they call (transitively, same module)."""
+    printers: dict[str, FunctionInfo] = {}
+    work = [f for f in prog.all_functions() if f.name in ("__str__", "_str") and f.file not in ("liquid2/exceptions.py", "liquid2/undefined.py", "liquid2/static_analysis.py", "liquid2/messages.py")]
+    while work:
+        f = work.pop()
+        if f.fid in printers:
+            continue
+        printers[f.fid] = f
+        for c in ast.walk(f.node):
+            if isinstance(c, ast.Call) and isinstance(c.func, ast.Name):
+                g = f.module.functions.get(c.func.id)
+                if g is not None and g.cls is None:
+                    work.append(g)
+            if isinstance(c, ast.Call) and isinstance(c.func, ast.Attribute) and isinstance(c.func.value, ast.Name) and c.func.value.id == "self" and f.cls is not None:
+                g = prog.find_method(f.cls, c.func.attr)
+                if g is not None:
+                    work.append(g)
+    probe = ast.parse("x = ''.join(buf).strip()")
+    if not any(isinstance(c, ast.Call) and isinstance(c.func, ast.Attribute) and c.func.attr == "strip" and not c.args for c in ast.walk(probe)):
+        raise AnalysisError("C12.R17 matcher self-check failed")
+    n = 0
+    for f in sorted(printers.values(), key=lambda f: (f.file, f.node.lineno)):
+        n += 1
+        bad = [c for c in ast.walk(f.node) if isinstance(c, ast.Call) and isinstance(c.func, ast.Attribute) and c.func.attr in ("strip", "lstrip", "rstrip", "split", "splitlines") and not c.args and not c.keywords and prog.enclosing_function(f.module, c) is f]
+        if bad:
+            res.fail("C12.R17", file=f.file, line=bad[0].lineno, qualname=f.qualname, construct=f"{f.qualname}: Unicode-aware .{bad[0].func.attr}() on printed text", message=f"{f.qualname} applies `.{bad[0].func.attr}()` without an argument to text it prints: Python removes every Unicode white-space character, and the lexer accepts U+00A0, U+2003 … inside a word - `echo a\u00a0` is printed as `echo a`, another variable", what=f"{f.qualname}: no Unicode-aware trimming of printed text")
+    res.ok("C12.R17", "liquid2/**", f"{n} printer functions (every __str__ and the helpers they call) scanned", "no argument-less strip/split (findings listed separately if any)")
+    res.floor("C12.R17", "printer functions scanned", n, 60)
+
 def run(prog: Program, res: Result) -> None:  # noqa: PLR0912, PLR0915
     res.explanation = (
         "For each Node class the tag words in its __str__ f-strings are compared with the names under which its producing "
@@ -687,6 +718,8 @@ def run(prog: Program, res: Result) -> None:  # noqa: PLR0912, PLR0915
     _path_shapes_rule(prog, res)
     res.rule("C12.R16", "a printer never decides by truthiness whether to print an attribute declared `str | None` / `int | None`: the parsed values '' and 0 are legal and falsy, so the test must be `is not None` (otherwise `{% cycle '': a, b %}` is printed without its group name)")
     _optional_scalar_rule(prog, res)
+    res.rule("C12.R17", "no printer trims or splits the text it prints with Python's Unicode-aware defaults (`.strip()`, `.lstrip()`, `.rstrip()`, `.split()` without an argument): the lexer's words may contain every character from U+0080 to U+FFFF, no-break and other non-ASCII spaces included, so a name that ends in one is changed by str(template)")
+    _unicode_trim_rule(prog, res)
 
 
 def _grouping_rule(prog: Program, res: Result) -> None:  # noqa: PLR0912, PLR0915
@@ -1371,6 +1404,14 @@ def _path_shapes_rule(prog: Program, res: Result) -> None:
             return Sym(cls, {"path": [mk(x) if isinstance(x, list) else x for x in p]})  # noqa: B023
 
         shapes = [["a"], ["a", "b"], ["a b"], ["true"], ["nil", "x"], ["if"], [0], [12, "x"], ["a", 0], ["a", -1], ["a", "b c"], ["a", ["b"]], [["b"]], [["b", "c"], "d"], ["a", ["true"]], [["nil"]], ["a", ["empty", "x"]], ["it's"], ["a", 'say "hi"'], ["a", "q\"'"], ["a-b"], ["a", "1x"], ["é"], [""]]
+        expect = {id(sh): sh for sh in shapes}
+        if cls.name == "PathToken":
+            # token-level segments hold source text, still escaped: an escaped backslash before a double quote (single-quoted source) and
+            # an escaped double quote (double-quoted source) must each come back as the characters they denote
+            for src_seg, value in (('a\\\\"b', 'a\\"b'), ('x\\"y', 'x"y'), ("p\\\\", "p\\")):
+                sh = ["a", src_seg]
+                shapes.append(sh)
+                expect[id(sh)] = ["a", value]
         for shape in shapes:
             n += 1
             E.steps = 0
@@ -1382,7 +1423,7 @@ def _path_shapes_rule(prog: Program, res: Result) -> None:
                 res.fail("C12.R15", file=cls.file, line=sm.node.lineno, qualname=f"{cls.name}.__str__", construct=f"not evaluable on {shape!r}: {err}", message=f"{cls.name}.__str__ could not be evaluated symbolically on {shape!r}: {err} (not decided)", what=what)
                 continue
             back = _read_path(txt, name_rx, reserved)
-            if back == shape:
+            if back == expect[id(shape)]:
                 res.ok("C12.R15", site, what, f"`{txt}`")
             else:
                 res.fail("C12.R15", file=cls.file, line=sm.node.lineno, qualname=f"{cls.name}.__str__", construct=f"path {shape!r} printed as `{txt}`", message=f"{cls.name}.__str__ prints the path {shape!r} as `{txt}`, which reads back as {back!r}: str(template) no longer denotes the same variable", what=what)
